@@ -965,6 +965,44 @@ pub fn run(rng: &mut Rng, tier: &str, out: &str) -> Report {
         check_bundles(&mut rep, rng, &u.changes, n_subsets, ui, &u.log);
     }
 
+    // ---- bulky changes: payloads that deflate extremely well, and change metadata (commit messages) large
+    // enough that the metadata columns of a bundle are themselves deflated ----
+    {
+        use automerge::transaction::{CommitOptions, Transactable};
+        let n_bulky = if thorough { 24 } else { 6 };
+        for bi in 0..n_bulky {
+            let mut doc = automerge::AutoCommit::new().with_actor(crate::gen::actor(rng, bi));
+            let mut log: Vec<String> = vec![];
+            let n_changes = rng.range(6, 14) as usize;
+            for k in 0..n_changes {
+                match rng.below(4) {
+                    0 => {
+                        let n = *rng.pick(&[300usize, 12_000, 40_000, 70_000]);
+                        let _ = doc.put(automerge::ROOT, "zeros", ScalarValue::Bytes(vec![0u8; n]));
+                        log.push(format!("put zeros x{}", n));
+                    }
+                    1 => {
+                        let n = *rng.pick(&[200usize, 6_000, 20_000]);
+                        let _ = doc.put(automerge::ROOT, "pattern", "ab".repeat(n));
+                        log.push(format!("put pattern ab x{}", n));
+                    }
+                    _ => {
+                        let _ = doc.put(automerge::ROOT, "k", k as i64);
+                        log.push("put k".into());
+                    }
+                }
+                let msg: String = format!("commit {} of the bulky stream: {}", k, "lorem ipsum dolor sit amet ".repeat(rng.range(3, 10) as usize));
+                doc.commit_with(CommitOptions::default().with_message(msg).with_time(k as i64));
+            }
+            let changes = doc.get_changes(&[]);
+            for c in &changes {
+                check_change(&mut rep, &mut cw, c, "bulky", false);
+            }
+            check_bundles(&mut rep, rng, &changes, 4, 100_000 + bi, &log);
+            rep.count("bulky_documents");
+        }
+    }
+
     // ---- hand-built expanded changes ----
     for i in 0..n_hand {
         let e = hand_built(rng, i);
